@@ -350,6 +350,14 @@ fn fixed_conda_vs_condu(ctx: &Ctx) -> CaseInfo {
     i
 }
 
+pub fn run_family_pub(bytes: &[u8], ctx: &Ctx) -> CaseInfo {
+    run_family(bytes, ctx)
+}
+
+pub fn run_match_pub(bytes: &[u8], ctx: &Ctx) -> CaseInfo {
+    run_match(bytes, ctx)
+}
+
 pub fn def() -> PropertyDef {
     PropertyDef {
         id: "C08",
